@@ -173,6 +173,53 @@ mut("c19-indef-bytes-not-closed-loop", ["C19"], "display of an unterminated inde
 mut("c19-empty-indef-text", ["C19"], "empty indefinite text rendered like empty indefinite bytes",
     [(TKZ, "                            f.write_str(\"\\\"\\\"_\")?", "                            f.write_str(\"''_\")?")])
 
+
+# ---- C14 ----
+RD = "minicbor-io/src/reader.rs"
+WRI = "minicbor-io/src/writer.rs"
+AR = "minicbor-io/src/async_reader.rs"
+AW = "minicbor-io/src/async_writer.rs"
+mut("c14-eof-in-prefix-clean-end", ["C14"], "blocking reader reports a clean end when the stream stops inside a length prefix",
+    [(RD, "                Ok(0) =>\n                    return Err(Error::Io(io::ErrorKind::UnexpectedEof.into())),", "                Ok(0) =>\n                    return Ok(None),")])
+mut("c14-maxlen-after-resize", ["C14"], "blocking reader resizes its buffer before checking max_len",
+    [(RD, "        if len > self.max_len {\n            return Err(Error::InvalidLen)\n        }\n        self.buffer.clear();\n        self.buffer.resize(len, 0u8);", "        self.buffer.clear();\n        self.buffer.resize(len, 0u8);\n        if len > self.max_len {\n            return Err(Error::InvalidLen)\n        }")])
+mut("c14-prefix-len-assign", ["C14"], "prefix loop overwrites the received count instead of adding",
+    [(RD, "                Ok(n) =>\n                    len += n,", "                Ok(n) =>\n                    len = n.max(len),")])
+mut("c14-interrupted-propagated", ["C14"], "blocking reader propagates Interrupted while reading the prefix",
+    [(RD, "                Err(e) if e.kind() == io::ErrorKind::Interrupted =>\n                    continue,\n", "")])
+mut("c14-writer-prefix-le", ["C14"], "blocking writer writes the length prefix little-endian",
+    [(WRI, "let prefix = (self.buffer.len() as u32 - 4).to_be_bytes();", "let prefix = (self.buffer.len() as u32 - 4).to_le_bytes();")])
+mut("c14-writer-maxlen-off-by-one", ["C14"], "blocking writer accepts a payload one byte above max_len",
+    [(WRI, "        if self.buffer.len() - 4 > self.max_len {", "        if self.buffer.len() - 5 > self.max_len {")])
+mut("c14-reader-keeps-stale-bytes", ["C14"], "blocking reader does not clear its buffer when the new frame is shorter (stale tail decoded when the frame is empty-prefixed)",
+    [(RD, "        self.buffer.clear();\n        self.buffer.resize(len, 0u8);\n        self.reader.read_exact(&mut self.buffer)?;", "        if len >= self.buffer.len() || len < 3 { self.buffer.clear(); }\n        self.buffer.resize(len, 0u8);\n        let start = 0;\n        self.reader.read_exact(&mut self.buffer[start ..])?;")])
+
+# ---- C15 ----
+mut("c15-prefix-rest-read-exact", ["C15"], "async reader fetches the rest of a partially received prefix with read_exact (progress lives in the dropped future)",
+    [(AR, "                State::ReadLen(ref mut buf, ref mut o) => {\n                    let n = self.reader.read(&mut buf[usize::from(*o) ..]).await?;", "                State::ReadLen(ref mut buf, ref mut o) if *o > 0 => {\n                    self.reader.read_exact(&mut buf[usize::from(*o) ..]).await?;\n                    *o = 4\n                }\n                State::ReadLen(ref mut buf, ref mut o) => {\n                    let n = self.reader.read(&mut buf[usize::from(*o) ..]).await?;")])
+mut("c15-eof-in-prefix-clean-end", ["C15"], "async reader reports a clean end when the stream stops inside a prefix",
+    [(AR, "                        return if *o == 0 {\n                            Ok(None)\n                        } else {\n                            Err(Error::Io(io::ErrorKind::UnexpectedEof.into()))\n                        }", "                        return Ok(None)")])
+mut("c15-payload-offset-assign", ["C15"], "async reader overwrites the payload offset instead of advancing it",
+    [(AR, "                    if n == 0 {\n                        return Err(Error::Io(io::ErrorKind::UnexpectedEof.into()))\n                    }\n                    *o += n", "                    if n == 0 {\n                        return Err(Error::Io(io::ErrorKind::UnexpectedEof.into()))\n                    }\n                    *o = if *o > 2 { n.max(*o) } else { *o + n }")])
+mut("c15-error-resets-state", ["C15"], "async reader forgets the partially received payload when the source reports an error",
+    [(AR, "                State::ReadVal(ref mut o) => {\n                    let n = self.reader.read(&mut self.buffer[*o ..]).await?;", "                State::ReadVal(ref mut o) => {\n                    let n = match self.reader.read(&mut self.buffer[*o ..]).await { Ok(n) => n, Err(e) => { *o = 0; return Err(e.into()) } };")])
+mut("c15-payload-via-read-exact", ["C15"], "async reader reads the payload with read_exact when more than 2 bytes are missing",
+    [(AR, "                State::ReadVal(ref mut o) => {\n                    let n = self.reader.read(&mut self.buffer[*o ..]).await?;", "                State::ReadVal(ref mut o) if self.buffer.len() - *o > 2 => {\n                    self.reader.read_exact(&mut self.buffer[*o ..]).await?;\n                    *o = self.buffer.len()\n                }\n                State::ReadVal(ref mut o) => {\n                    let n = self.reader.read(&mut self.buffer[*o ..]).await?;")])
+
+# ---- C16 ----
+mut("c16-sync-restarts-after-error", ["C16"], "AsyncWriter::sync restarts the frame from offset 0 after a sink error",
+    [(AW, "                    let n = self.writer.write(&self.buffer[*o ..]).await?;", "                    let n = match self.writer.write(&self.buffer[*o ..]).await { Ok(n) => n, Err(e) => { *o = 0; return Err(e.into()) } };")])
+mut("c16-done-one-byte-early", ["C16"], "AsyncWriter::sync considers the frame complete when one byte is left",
+    [(AW, "                State::WriteFrom(o) if o >= self.buffer.len() => {", "                State::WriteFrom(o) if o >= self.buffer.len() || (o > 4 && o + 1 == self.buffer.len() && self.buffer.len() > 9) => {")])
+mut("c16-write-zero-ignored", ["C16"], "AsyncWriter::sync ignores a sink that accepts zero bytes",
+    [(AW, "                    if n == 0 {\n                        return Err(Error::Io(io::ErrorKind::WriteZero.into()))\n                    }\n", "")])
+mut("c16-state-armed-before-maxlen", ["C16"], "AsyncWriter arms the transfer before checking max_len",
+    [(AW, "        if self.buffer.len() - 4 > self.max_len {\n            return Err(Error::InvalidLen)\n        }\n        let prefix = (self.buffer.len() as u32 - 4).to_be_bytes();\n        self.buffer[.. 4].copy_from_slice(&prefix);\n        self.state = State::WriteFrom(0);", "        self.state = State::WriteFrom(0);\n        if self.buffer.len() - 4 > self.max_len {\n            return Err(Error::InvalidLen)\n        }\n        let prefix = (self.buffer.len() as u32 - 4).to_be_bytes();\n        self.buffer[.. 4].copy_from_slice(&prefix);")])
+mut("c16-assumes-full-write", ["C16"], "AsyncWriter::sync assumes the sink took everything it was offered once more than half was taken",
+    [(AW, "                    *o += n\n                }\n            }\n        }\n    }\n\n    /// Flush", "                    *o += if 2 * n > self.buffer.len() - *o { self.buffer.len() - *o } else { n }\n                }\n            }\n        }\n    }\n\n    /// Flush")])
+mut("c16-write-returns-frame-len", ["C16"], "AsyncWriter::write returns the frame length including the prefix",
+    [(AW, "        self.sync().await?;\n\n        Ok(self.buffer.len() - 4)", "        self.sync().await?;\n\n        Ok(self.buffer.len() - 4 + (self.buffer.len() > 300) as usize * 4)")])
+
 def main():
     outdir = os.path.join(ROOT, "mutants")
     os.makedirs(outdir, exist_ok=True)
